@@ -166,7 +166,8 @@ void Server::Impl::onTcpReceived(const TcpServer::ConnToken &ct, Buffer &buff)
             if (context_log_enable_)
                 LogDbg("REQ: [%s]", req->toString().c_str());
 
-            if (IsLastRequest(req)) {
+            bool is_last_req = IsLastRequest(req);
+            if (is_last_req) {
                 //! 标记当前请求为close请求
                 conn->close_index = conn->req_index;
                 LogDbg("mark close at %d", conn->close_index);
@@ -176,6 +177,12 @@ void Server::Impl::onTcpReceived(const TcpServer::ConnToken &ct, Buffer &buff)
 
             auto sp_ctx = make_shared<Context>(wp_parent_, ct, conn->req_index++, req);
             handle(sp_ctx, 0);
+
+            //! close请求之后的数据不应再被当成请求处理，直接丢弃
+            if (is_last_req) {
+                buff.hasReadAll();
+                break;
+            }
 
         } else if (conn->req_parser.state() == RequestParser::State::kFail) {
             LogNotice("parse http from %s fail", tcp_server_.getClientAddress(ct).toString().c_str());
